@@ -32,10 +32,16 @@ package unmarshal
 
 
 // Every decoder reaches the row builder through a value of this handler type.
+// Ghost: how many times a decoder handed entries to the row builder, and how many
+// samples in all.
+//@ ghost var handedCalls int
+//@ ghost var handedSamples int
 //@ func functype:onEntriesHandler(labels, timestampsNS, message, value, types)
 //@   requires same-length: sameLen(timestampsNS, message, value, types)
 //@   requires known-types: knownTypes(types)
-//@   modifies nothing
+//@   ghostset handedCalls = handedCalls + 1
+//@   ghostset handedSamples = handedSamples + len(timestampsNS)
+//@   modifies handedCalls, handedSamples
 
 //@ func (*logsProtoDec).Decode [C02,C03]
 //@   flag checks=-assert
@@ -263,8 +269,16 @@ package unmarshal
 //@   requires entry-starts-clear: d.Source == "" && len(d.Tags) == 0 && d.Hostname == "" && d.Message == "" && d.Service == "" && d.TsMs == 0 && d.SourceType == ""
 //@   loop 1:
 //@     modifies d.Tags
+// Influx line protocol: a line with a "message" field is one log entry (its other
+// fields are folded into the line text) and nothing else; every other line gives one
+// metric sample per numeric field.
+//@ func getMessage
+//@   modifies nothing
 //@ func (*influxDec).Decode [C03]
 //@   flag checks=-assert,-index
+//@   loop 1:
+//@     modifies everything
+//@     step a-log-line-is-exactly-one-entry: ok ==> handedCalls == prev(handedCalls) + 1 && handedSamples == prev(handedSamples) + 1
 // OTLP logs: the labels of a record are the attributes of its own resource, of its
 // own scope and of the record itself. The resource map is filled from the resource
 // only (it is shared by every scope below it) and the scope map from the scope only.
